@@ -5,6 +5,7 @@ import (
 	"go/ast"
 	"go/token"
 	"go/types"
+	"sort"
 	"strings"
 
 	"github.com/jmattheis/goverter/config"
@@ -47,6 +48,10 @@ func ParseDocs(c ParseDocsConfig) ([]config.RawConverter, error) {
 	if err != nil {
 		return nil, err
 	}
+	// the order of the package patterns must not influence the output
+	sort.Slice(pkgs, func(i, j int) bool {
+		return pkgs[i].ID < pkgs[j].ID
+	})
 	rawConverters := []config.RawConverter{}
 	for _, pkg := range pkgs {
 		if len(pkg.Errors) > 0 {
